@@ -117,6 +117,7 @@ from .signature import (
     ParameterKind,
     Signature,
     SigParameter,
+    is_expensive_int_operation,
 )
 from .stacked_scopes import (
     EMPTY_ORIGIN,
@@ -5582,7 +5583,11 @@ class NameCheckVisitor(node_visitor.ReplacingNodeVisitor):
         if allow_call and isinstance(callee_wrapped, KnownValue):
             arg_values = [arg.value for arg in args]
             kw_values = [(kw, composite.value) for kw, composite in keywords]
-            if self._can_perform_call(arg_values, kw_values):
+            if self._can_perform_call(
+                arg_values, kw_values
+            ) and not is_expensive_int_operation(
+                callee_wrapped.val, [arg.val for arg in arg_values]
+            ):
                 try:
                     result = callee_wrapped.val(
                         *[arg.val for arg in arg_values],
